@@ -188,15 +188,23 @@ impl<'a> Sim<'a> {
         // own inventory never lists private repositories.
         match &a.message {
             AnnouncementMessage::Refs(r) => {
-                let doc = self.nodes[node].svc.as_ref().and_then(|s| s.get(r.rid).ok().flatten());
-                if let Some(doc) = doc {
-                    if doc.is_private() {
-                        self.res.hit("probe.c11.private_refs_ann_emitted");
-                        if !doc.is_visible_to(&(*peer).into()) {
-                            let whose = if a.node == nid { "own" } else { "foreign" };
-                            self.res.trace.log("leak", format!("LEAK n{node} -> {}: refs announcement about private {} ({whose}, {tname})", self.name(peer), self.rname(&r.rid)));
-                            self.res.violate(&own, "C11", &format!("C11/leak/refs/{whose}/{tname}"), format!("n{node} sent a refs announcement (signed by {}) about private repository {} to {}, which is neither a delegate nor allow-listed; trigger: {tname}", self.name(&a.node), self.rname(&r.rid), self.name(peer)));
-                        }
+                // privacy by ground truth: the node's own copy of the identity document if it holds the
+                // repository, else the harness' record of how the repository was created
+                let held = self.nodes[node].svc.as_ref().and_then(|s| s.get(r.rid).ok().flatten());
+                let verdict: Option<(bool, bool)> = match &held {
+                    Some(doc) => Some((doc.is_private(), doc.is_visible_to(&(*peer).into()))),
+                    None => self.repos.iter().find(|x| x.rid == r.rid).map(|x| (x.private, !x.private || x.visible_to.contains(peer))),
+                };
+                if let Some((true, visible)) = verdict {
+                    self.res.hit("probe.c11.private_refs_ann_emitted");
+                    if held.is_none() {
+                        self.res.hit("probe.c11.private_refs_ann_about_repository_not_held");
+                    }
+                    if !visible {
+                        let whose = if a.node == nid { "own" } else { "foreign" };
+                        let suffix = if held.is_some() { "" } else { "/repository-not-held" };
+                        self.res.trace.log("leak", format!("LEAK n{node} -> {}: refs announcement about private {} ({whose}, {tname}{suffix})", self.name(peer), self.rname(&r.rid)));
+                        self.res.violate(&own, "C11", &format!("C11/leak/refs/{whose}/{tname}{suffix}"), format!("n{node} sent a refs announcement (signed by {}) about private repository {} to {}, which is neither a delegate nor allow-listed; trigger: {tname}{}", self.name(&a.node), self.rname(&r.rid), self.name(peer), if held.is_some() { "" } else { " (the node does not hold the repository)" }));
                     }
                 }
             }
